@@ -1108,8 +1108,17 @@ stream_encoder_mt_init(lzma_next_coder *next, const lzma_allocator *allocator,
 	coder->thr = NULL;
 
 	// Allocate the thread-specific base structures.
+	//
+	// If this coder has been used before and worker threads have been
+	// started, they aren't reused: a worker that is told to stop may
+	// still be going to update the progress information and the list
+	// of free threads after it has marked itself idle, a worker that
+	// hasn't noticed its new Block yet would never return to the list
+	// of free threads, and the input buffers of the workers have been
+	// allocated for the old block size.
 	assert(options->threads > 0);
-	if (coder->threads_max != options->threads) {
+	if (coder->threads_max != options->threads
+			|| coder->threads_initialized > 0) {
 		threads_end(coder, allocator);
 
 		coder->threads = NULL;
